@@ -47,6 +47,9 @@ type c18Op struct {
 	DtSec  int    `json:"dt_sec,omitempty"`  // advance
 	// burst (provider, api): Count new alerts of one name (ids 1000+100*step+j, end in EndSec) in ONE Put / POST
 	Count int `json:"count,omitempty"`
+	// burst: the last member of the submission is a re-send of this id of the small universe (-1: none); if that
+	// alert is admitted and unexpired the re-send must be accepted whatever happened to the members before it
+	Resend int `json:"resend,omitempty"`
 }
 
 type c18BucketScenario struct {
@@ -108,7 +111,11 @@ func c18GenBucket(level []string) func(t *rapid.T) c18BucketScenario {
 				if (sc.Level == "provider" || sc.Level == "api") && rapid.IntRange(0, 3).Draw(t, "burst") == 0 {
 					// several new alerts of one name in one submission: with a bucket that is full or nearly full
 					// more than one of them is refused by the same call
-					sc.Ops = append(sc.Ops, c18Op{Kind: "burst", Name: mainName, Count: rapid.IntRange(2, 5).Draw(t, "burstCount"), EndSec: rapid.SampledFrom(c18EndsFut).Draw(t, "burstEnd")})
+					b := c18Op{Kind: "burst", Name: mainName, Count: rapid.IntRange(2, 5).Draw(t, "burstCount"), EndSec: rapid.SampledFrom(c18EndsFut).Draw(t, "burstEnd"), Resend: -1}
+					if rapid.Bool().Draw(t, "burstResend") {
+						b.Resend = rapid.IntRange(0, ids-1).Draw(t, "burstResendID")
+					}
+					sc.Ops = append(sc.Ops, b)
 					continue
 				}
 				sc.Ops = append(sc.Ops, c18Op{Kind: "advance", DtSec: rapid.SampledFrom(c18Advance).Draw(t, "dt")})
@@ -329,7 +336,7 @@ func (s *c18ProviderSys) upsert(name string, id, endSec int, now time.Time) c18O
 }
 
 // burst at provider level: all alerts in one Put.
-func (s *c18ProviderSys) burst(name string, ids []int, endSec int, now time.Time) (stored []bool, dTotal, dName float64, errs string) {
+func (s *c18ProviderSys) burst(name string, ids []int, endSec int, now time.Time) (stored []bool, ends []time.Time, dTotal, dName float64, errs string) {
 	end := now.Add(time.Duration(endSec) * time.Second)
 	var as []*types.Alert
 	for _, id := range ids {
@@ -337,7 +344,7 @@ func (s *c18ProviderSys) burst(name string, ids []int, endSec int, now time.Time
 	}
 	t0, n0, err := s.counters(name)
 	if err != nil {
-		return nil, 0, 0, "gather: " + err.Error()
+		return nil, nil, 0, 0, "gather: " + err.Error()
 	}
 	func() {
 		defer func() {
@@ -351,13 +358,19 @@ func (s *c18ProviderSys) burst(name string, ids []int, endSec int, now time.Time
 	}()
 	t1, n1, err := s.counters(name)
 	if err != nil {
-		return nil, 0, 0, "gather: " + err.Error()
+		return nil, nil, 0, 0, "gather: " + err.Error()
 	}
 	for _, a := range as {
 		got, gerr := s.alerts.Get(a.Fingerprint())
-		stored = append(stored, gerr == nil && got.UpdatedAt.Equal(now))
+		ok := gerr == nil && got.UpdatedAt.Equal(now)
+		stored = append(stored, ok)
+		if ok {
+			ends = append(ends, got.EndsAt)
+		} else {
+			ends = append(ends, time.Time{})
+		}
 	}
-	return stored, t1 - t0, n1 - n0, errs
+	return stored, ends, t1 - t0, n1 - n0, errs
 }
 
 // gc at provider level: let the GC ticker (created at the epoch, period gcSec)
@@ -496,7 +509,7 @@ func (s *c18APISys) upsert(name string, id, endSec int, now time.Time) c18Outcom
 }
 
 // burst at API level: all alerts in one POST.
-func (s *c18APISys) burst(name string, ids []int, endSec int, now time.Time) (stored []bool, dTotal, dName float64, errs string) {
+func (s *c18APISys) burst(name string, ids []int, endSec int, now time.Time) (stored []bool, ends []time.Time, dTotal, dName float64, errs string) {
 	end := now.Add(time.Duration(endSec) * time.Second)
 	var batch []any
 	for _, id := range ids {
@@ -506,7 +519,7 @@ func (s *c18APISys) burst(name string, ids []int, endSec int, now time.Time) (st
 	body, _ := json.Marshal(batch)
 	t0, n0, err := s.counters(name)
 	if err != nil {
-		return nil, 0, 0, "gather: " + err.Error()
+		return nil, nil, 0, 0, "gather: " + err.Error()
 	}
 	func() {
 		defer func() {
@@ -524,17 +537,29 @@ func (s *c18APISys) burst(name string, ids []int, endSec int, now time.Time) (st
 	}()
 	t1, n1, err := s.counters(name)
 	if err != nil {
-		return nil, 0, 0, "gather: " + err.Error()
+		return nil, nil, 0, 0, "gather: " + err.Error()
 	}
-	listed, _, lerr := s.list()
+	listed, lerr := s.get()
 	if lerr != nil {
-		return nil, 0, 0, lerr.Error()
+		return nil, nil, 0, 0, lerr.Error()
 	}
+	byFP := map[string]c18GetAlert{}
+	for _, a := range listed {
+		byFP[a.Fingerprint] = a
+	}
+	_ = end
 	for _, id := range ids {
-		_, ok := listed[c18FP(name, id)]
+		// held with this submission's receive time (the API reports updatedAt to the millisecond)
+		l, ok := byFP[c18FP(name, id)]
+		ok = ok && l.UpdatedAt.Equal(now.Truncate(time.Millisecond))
 		stored = append(stored, ok)
+		if ok {
+			ends = append(ends, l.EndsAt)
+		} else {
+			ends = append(ends, time.Time{})
+		}
 	}
-	return stored, t1 - t0, n1 - n0, errs
+	return stored, ends, t1 - t0, n1 - n0, errs
 }
 
 func (s *c18APISys) list() (map[string]c18Listed, bool, error) {
@@ -630,7 +655,7 @@ func c18ExecBucket(sc c18BucketScenario) (res pbt.Result) {
 				sawLateCopy = true
 			case "burst":
 				bs, ok := sys.(interface {
-					burst(name string, ids []int, endSec int, now time.Time) ([]bool, float64, float64, string)
+					burst(name string, ids []int, endSec int, now time.Time) ([]bool, []time.Time, float64, float64, string)
 				})
 				if !ok {
 					continue
@@ -640,24 +665,31 @@ func c18ExecBucket(sc c18BucketScenario) (res pbt.Result) {
 				for j := 0; j < op.Count; j++ {
 					ids = append(ids, 1000+100*i+j)
 				}
-				stored, dTotal, dName, errs := bs.burst(name, ids, op.EndSec, now)
+				if op.Resend >= 0 {
+					ids = append(ids, op.Resend)
+				}
+				stored, ends, dTotal, dName, errs := bs.burst(name, ids, op.EndSec, now)
 				if errs != "" {
 					res.Add(pbt.V("submission-failed", "%s: a submission of %d valid alerts failed: %s", where, len(ids), errs).With("level", sc.Level))
 					return
 				}
-				end := now.Add(time.Duration(op.EndSec) * time.Second)
 				refused := 0
 				for j, id := range ids {
 					fp := c18FP(name, id)
 					if stored[j] {
-						model.Accept(name, fp, end)
-						shadow.accept(name, fp, end, now)
+						// (the end in force is the stored one: a re-send with an earlier explicit end keeps the later end)
+						model.Accept(name, fp, ends[j])
+						shadow.accept(name, fp, ends[j], now)
 						continue
 					}
 					refused++
 					sawRefusal = true
 					if !model.RefusalAllowed(name, fp, now) {
-						res.Add(pbt.V("refused-with-room", "%s: alert %d of the batch is not held although only %d of %d unexpired alerts of %s are admitted", where, j, len(model.Unexpired(name, now)), sc.N, name).With("level", sc.Level))
+						kind := "refused-with-room"
+						if model.IsUnexpired(name, fp, now) {
+							kind = "resend-refused"
+						}
+						res.Add(pbt.V(kind, "%s: alert %d of the batch (id %d) is not held with its new end although only %d of %d unexpired alerts of %s are admitted (re-send of an admitted unexpired alert: %v)", where, j, id, len(model.Unexpired(name, now)), sc.N, name, model.IsUnexpired(name, fp, now)).With("level", sc.Level))
 					}
 				}
 				if refused >= 2 {
